@@ -137,7 +137,7 @@ def cipher_cases(tier, rng):
                     yield {'k': 'cipher', 'c': c, 'kp': kw, 'tp': tw, 'bp': 'ones' if tw == 'tmax' else 'rand'}
 
 def sibling_cases(tier):
-    for fam in ('aes-zero-extended-keys', 'aes-zero-keys', 'aes-mixed', 'threefish-sizes', 'serpent-key-lengths', 'des-family', 'all-ciphers'):
+    for fam in ('aes-zero-extended-keys', 'aes-zero-keys', 'aes-mixed', 'threefish-sizes', 'serpent-key-lengths', 'serpent-zero-extended-keys', 'des-family', 'all-ciphers'):
         for j in range(6 if tier == 'quick' else 60):
             yield {'k': 'siblings', 'fam': fam, 'j': j}
 
@@ -159,6 +159,10 @@ def sibling_specs(case, rng):
     if fam == 'serpent-key-lengths':
         K = R(32)
         return [('Serpent-%d' % n, 'serpent', K[:n], None, None) for n in (16, 24, 32, 5, 31)]
+    if fam == 'serpent-zero-extended-keys':
+        K = R(16) if case['j'] % 2 else bytes(16)
+        return [('Serpent-16', 'serpent', K, None, None), ('Serpent-24(K+0)', 'serpent', K + bytes(8), None, None), ('Serpent-32(K+0)', 'serpent', K + bytes(16), None, None),
+                ('Serpent-other', 'serpent', R(16), None, None), ('Serpent-20(K+0)', 'serpent', K + bytes(4), None, None)]
     if fam == 'des-family':
         K = R(24)
         return [('DES-k1', 'des', K[:8], None, None), ('DES-k2', 'des', K[8:16], None, None), ('TDEA-3', 'tdea3', K, None, None), ('TDEA-s16', 'tdea-s16', K[:16], None, None), ('TDEA-1', 'tdea1', K[:8], None, None)]
@@ -255,6 +259,13 @@ def run(case, ctx, rng):
         # the same object again, in the other order (a cached schedule must survive both directions)
         ctx.eq('enc==standard', call(obj.enc, B), ref(c, K, T, B, False, kbits), again_after_dec=True, **det)
         ctx.eq('dec==standard', call(obj.dec, B), ref(c, K, T, B, True, kbits), again_after_enc=True, **det)
+        if c == 'des' and case['kp'] in ('rand', 'walk'):
+            # DES reads its public key attribute at every call: assigning it re-keys the object, in both directions
+            from crysp.bits import Bits
+            K3 = rng.randbytes(8)
+            obj.K = Bits(K3, 64)
+            ctx.eq('rekeyed:enc==standard', call(obj.enc, B), ref(c, K3, T, B, False), K=K3, B=B)
+            ctx.eq('rekeyed:dec==standard', call(obj.dec, B), ref(c, K3, T, B, True), K=K3, B=B)
         if case['kp'] == 'parity':
             # keys differing only in the (ignored) parity bits compute the same function
             K2 = bytes(b ^ 1 if (case['j'] >> (i % 6)) & 1 else b for i, b in enumerate(K))
